@@ -50,6 +50,7 @@ SOURCE_OBLIGATIONS = [
     "JanetModel.Props.C06.order_per_giver_handout",
     "JanetModel.Props.C06.order_per_giver_taker",
     "JanetModel.Props.C06.noSelfMatch_needed",
+    "JanetModel.Props.C06.selfMatch_drops_value",
     "JanetModel.Props.C06.current_good",
     "JanetModel.Props.C06.no_lost_wakeup_partial",
 ]
